@@ -412,7 +412,7 @@ fn exec(sc: &Scenario, ctx: &mut Ctx) -> Vec<Violation> {
         _ => 4,
     };
     let table = 2usize * (0x300usize << lclp) * if matches!(ep, EP_LZMA | EP_STREAM | EP_RAW_LZMA) { 1 } else { 2 };
-    let slack = 1024 * 1024 + (events as usize) * 160;
+    let slack = 256 * 1024;
     let bound = table + 8 * (input.len() + produced) + slack;
     ctx.stats.max("max_heap_peak_bytes", peak as u64);
     ctx.stats.max(
@@ -440,7 +440,7 @@ fn exec(sc: &Scenario, ctx: &mut Ctx) -> Vec<Violation> {
 pub static C07: SimpleProp = SimpleProp {
     id: "C07",
     level: "exploration",
-    rule: "one evaluation = one run of a decoding entry point (lzma_decompress_with_options with every option / supplied-size / memlimit combination, lzma2_decompress, xz_decompress, Stream under a random history that keeps calling after errors, raw::LzmaDecoder with any accepted lc/lp/pb/dictionary(incl. 0)/size, raw::Lzma2Decoder) on: uniformly random bytes; a header announcing a 4 GiB dictionary and 2^63 bytes; LZMA2 chunk headers with maximal size fields; valid streams (incl. adversarial long symbols); grammar-generated near-valid .xz (field extremes with CRCs recomputed, 9-byte VLIs, nested/odd filters); each with 0-3 further mutations (bit flip, truncation, splice, duplication, extension, field extremes) — under the overflow-checked and the wrapping build. Monitors: no unwind; heap peak (metering allocator) <= literal table + 8*(input + bytes a correct decoder produces) + 1 MiB; a 120 s no-progress supervisor. Non-trivial = non-empty input; distinct by scenario hash",
+    rule: "one evaluation = one run of a decoding entry point (lzma_decompress_with_options with every option / supplied-size / memlimit combination, lzma2_decompress, xz_decompress, Stream under a random history that keeps calling after errors, raw::LzmaDecoder with any accepted lc/lp/pb/dictionary(incl. 0)/size, raw::Lzma2Decoder) on: uniformly random bytes; a header announcing a 4 GiB dictionary and 2^63 bytes; LZMA2 chunk headers with maximal size fields; valid streams (incl. adversarial long symbols); grammar-generated near-valid .xz (field extremes with CRCs recomputed, 9-byte VLIs, nested/odd filters); each with 0-3 further mutations (bit flip, truncation, splice, duplication, extension, field extremes) — under the overflow-checked and the wrapping build. Monitors: no unwind; heap peak (metering allocator) <= literal table + 8*(input + bytes a correct decoder produces) + 256 KiB (only allocations made while library code runs are metered); a 120 s no-progress supervisor. Non-trivial = non-empty input; distinct by scenario hash",
     runs_quick: 250_000,
     runs_thorough: 20_000_000,
     both_profiles: true,
